@@ -4,7 +4,7 @@
    obs: [cls, tree, eof, off], obs2: [cls]]; obs comes from parse_to_sexpression, obs2 from
    parse_jaqal_string(autoload_pulses=False).  The expected outcome is recomputed here by folding
    JaqalParse!Step over the recorded tokens.                                                     *)
-EXTENDS JaqalParse, Json, IOUtils
+EXTENDS JaqalParse, Json, IOUtils, SequencesExt
 Cases == JsonDeserialize(IOEnv.CASES)
 
 TokStarts(c, from) == { c.offs[i] : i \in { j \in from..Len(c.toks) : c.toks[j].t \notin LayoutKinds } }
@@ -20,6 +20,9 @@ Clauses(c) ==
       \cup F("position", exp.v = "syntax" /\ ~exp.static /\ o.cls = "parse_error" /\
                 ~(IF exp.bad > Len(c.toks) THEN o.eof
                   ELSE o.eof \/ o.off \in TokStarts(c, exp.bad)))
+      \* header-only parsing of a well-formed text returns exactly the header statements
+      \cup F("header_only", exp.v = "ok" /\
+                (c.obs3.cls # "ok" \/ c.obs3.tree # Node("circuit", "", SelectSeq(exp.tree.c, LAMBDA nd : nd.k \in HeaderKinds))))
       \cup F("string_entry_agrees",
                 \/ (exp.v = "syntax" /\ c.obs2.cls # "parse_error")
                 \/ (exp.v # "syntax" /\ c.obs2.cls \notin {"ok", "jaqal_error", "parse_error"})
